@@ -56,7 +56,8 @@ CFG = dict(
         "Bridge.C15.cachedLeader_partition_absent", "Bridge.C15.cachedLeader_found", "Bridge.C15.replicasTail_eq",
         "Bridge.C15.partitionsTail_eq", "Bridge.C15.writableTail_eq", "Bridge.C15.reconcileBroker_eq",
         "Bridge.C15.partitionRetry_eq", "Bridge.C15.deregisterBroker_eq",
-        "Bridge.C15.lock_statements_present"],
+        "Bridge.C15.lock_statements_present", "Bridge.C15.topicSwitch_eq", "Bridge.C15.applyTopic_by_switch",
+        "Bridge.C15.kerrorVerdict_eq", "Bridge.C15.kerror_fatal_iff", "Bridge.C15.answeredVerdict_eq"],
     n={"quick": 15000, "thorough": 50000, "search": 6000, "conc_quick": 2000, "conc_thorough": 6000},
     thorough_seeds=4,
     timeout={"quick": 600, "thorough": 1700},
